@@ -1,6 +1,7 @@
 (* C02 — property theorems only (model: Reader/Model.v, proofs: Reader/Proofs.v, C02/Proofs.v) *)
 From Coq Require Import List String NArith ZArith Bool Sorting.Sorted Permutation.
 From Verif Require Import Base.Util Reader.Model Reader.Script Reader.Proofs C02.Check C02.Proofs C03.Proofs Reader.Example.
+From Verif Require C02.History.
 Import ListNotations.
 Local Open Scope string_scope.
 
@@ -15,6 +16,23 @@ Theorem C02_pairing : forall c shs, pairing c = Some shs ->
   /\ Sorted sle (ssort (ci_src c)) /\ Sorted sle (ssort (ci_tgt c)).
 Proof. exact pairing_spec. Qed.
 Print Assumptions C02_pairing.
+
+(* history theorem: in every reachable state of the reader model - for every history of collections started and started again (with
+   handlers that wait for a downstream channel and are given another one), partitions added, packs fed, drops and stops - every record
+   that a channel handler holds for a collection, and every record queued on a waiting handler, carries the downstream collection id,
+   the name, and the downstream virtual and physical channel of one shard of the sorted one-to-one pairing (C02_pairing) of a
+   StartColl label of the history for that collection.  With C02_readdressing below (an appended message carries the addressing of
+   the handler's record for the message's collection) the addressing of every emitted message comes from that pairing. *)
+Theorem C02_records_from_pairing : forall retries ls,
+  let s := run retries ls in
+  (forall h, In h (handlers s) -> forall c r, zlookup (h_recs h) c = Some r ->
+     exists ci shs sh, In (StartColl ci) ls /\ ci_id ci = c /\ pairing ci = Some shs /\ In sh shs
+                       /\ (t_tcoll r, t_name r, t_tvch r, t_tpch r) = (ci_tid ci, ci_name ci, sh_tvch sh, sh_tpch sh))
+  /\ (forall w, In w (wsh s) ->
+     exists ci shs sh, In (StartColl ci) ls /\ ci_id ci = ws_coll w /\ pairing ci = Some shs /\ In sh shs
+                       /\ (t_tcoll (ws_rec w), t_name (ws_rec w), t_tvch (ws_rec w), t_tpch (ws_rec w)) = (ci_tid ci, ci_name ci, sh_tvch sh, sh_tpch sh)).
+Proof. exact History.records_from_pairing. Qed.
+Print Assumptions C02_records_from_pairing.
 
 (* re-addressing, for every accumulator state and message: whatever the content phase appends for a message carries the
    downstream collection id, virtual channel and physical channel of the record the feeding handler holds for the message's
